@@ -1960,6 +1960,35 @@ pub fn c19(tier: &str) -> Vec<Family> {
     let b = NodeSpec::new("B", 1).script(2, vec![query(0, 3)]).req(vec![to(0)]);
     let c = NodeSpec::new("C", 1);
     benches.push(("query_bcast_stalled", Arc::new(BenchSpec::new(vec![a, b, c])), vec![pe(0, 1, 0)]));
+    // Replies that are produced but never read: a query action whose receiver is dropped or
+    // kept unread, a query processed in a step that fails after the replier replied.
+    let r1 = NodeSpec::new("R1", 2).script(4, vec![sendc(0, 2, 1)]).out(vec![to(2)]);
+    let r2 = NodeSpec::new("R2", 2);
+    let o = NodeSpec::new("O", 2).placement(Placement::Orphan);
+    let mut spec = BenchSpec::new(vec![r1, r2, o]);
+    spec.qsrcs = vec![vec![to(0), to(1)], vec![to(1)]];
+    let spec = Arc::new(spec);
+    benches.push((
+        "unread_replies",
+        spec.clone(),
+        vec![
+            Cmd::ProcQSrcDrop { src: 1, tag: 1, val: 1 },
+            Cmd::SchedQSrc { src: 1, when: When::Rel(1), tag: 1, val: 2, keep: false },
+            Cmd::SchedQSrc { src: 1, when: When::Rel(1), tag: 1, val: 3, keep: true },
+            Cmd::SchedQSrc { src: 1, when: When::Rel(3), tag: 1, val: 4, keep: true },
+            Cmd::Step,
+            Cmd::ProcQSrc { src: 1, tag: 1, val: 5 },
+        ],
+    ));
+    // The replier R1 loses a message (orphan mailbox) while serving the query: the call fails after the replies exist.
+    benches.push(("replies_in_failed_step", spec.clone(), vec![Cmd::ProcQSrc { src: 0, tag: 4, val: 1 }]));
+    benches.push(("query_in_failed_step", spec, vec![Cmd::ProcQuery { node: 0, tag: 4, val: 1 }]));
+    // A handler that builds, runs and drops an inner simulation while other models are idle or busy.
+    let a = NodeSpec::new("A", 2).script(1, vec![Op::Nested(2), sendp(0, 2, 1)]).script(3, vec![Op::Nested(1), Op::Nested(3)]).out(vec![to(1)]);
+    let b = NodeSpec::new("B", 2).script(2, vec![Op::ReadTime]);
+    let c = NodeSpec::new("C", 1);
+    let d = NodeSpec::new("D", 1).parent(2);
+    benches.push(("nested_simulation", Arc::new(BenchSpec::new(vec![a, b, c, d])), vec![pe(1, 2, 0), pe(0, 1, 0), pe(0, 3, 0)]));
     for (name, spec, cmds) in &benches {
         for pos in 0..=cmds.len() {
             let mut c2 = cmds.clone();
